@@ -290,8 +290,18 @@ class C05(Check):
             p = tr.tanks[c["src"]]
             for i in range(len(rows) - 1):
                 a, b = rows[i], rows[i + 1]
-                if a["links"][c["link"]][0] == val or b["links"][c["link"]][0] != val:
-                    continue  # the action changed nothing / did not take effect: no partial step is due to this control
+                li = tr.links.index(c["link"])
+                u, it, _ = a["priv"][li]
+
+                def status(user, internal, kind=tr.kinds[li]):
+                    if kind == "valve":
+                        return user if user in (0.0, 1.0) else internal
+                    return 0.0 if internal == 0.0 else user
+
+                # a partial step is due to this control only if its action (write `val` into _user_status on the state the
+                # presolve pass starts from = the previous reported state) changes the link's status, and it took effect
+                if status(val, it) == status(u, it) or b["links"][c["link"]][0] != val:
+                    continue
 
                 def cb2(ans, c=c, a=a, b=b, p=p, k=k):
                     if ans == "na":
